@@ -56,7 +56,7 @@ add("C07", ENGINE_W, "fault_enumeration", "deterministic fault enumeration: ever
 
 ENGINE_NET = "engine-net"
 add("C13", ENGINE_NET, "fault_enumeration", "deterministic fault enumeration on the fake clock: every distribution of 0..4 transient failures over get-latest/fetch-proof/update, cancellation at every call and backoff sleep, recording witness (stub and real)",
-    "FeedOnce runs on the synctest fake clock against a recording witness (stub, or the real witness through the real witnessAdapter, optionally with a competing writer) and a harness log party; per seeded shape all 121 failure patterns and all cancellation points are executed and the recorded calls are checked per attempt.",
+    "FeedOnce runs on the synctest fake clock against a recording witness (stub, or the real witness through the real witnessAdapter, optionally with a competing writer) and a harness log party; per seeded shape all 121 failure patterns and all cancellation points are executed and the recorded calls are checked per attempt; one polling run per real-witness shape drives the real Rekor feeder (rekor.FeedLog) against a Rekor stub on the simulated network while a competing writer moves the witness.",
     BASE_NOTE, "DESIGN.md 5/C13")
 
 add("C15", ENGINE_NET, "exploration", "deterministic simulation: seeded witness answers x seeded network faults (drop, status, redirect, truncation, stall past the client timeout on the fake clock), oracle on the stub distributor's request log",
